@@ -144,12 +144,50 @@ def accumulateElem {α : Type} (op : α → α → α) (a : Arr α) (axis : Int)
 def accumulate {α : Type} (op : α → α → α) (a : Arr α) (axis : Int) : Arr (Option α) :=
   ⟨a.shape, accumulateElem op a axis⟩
 
+/-- the source multi-indices `flatten(apply_slice(a, sl))` reads at flat positions `0 .. size-1`, in that order -/
+def slicedReads (sl : List (Nat × Nat)) : List Idx :=
+  (List.range (prod (sliceShape sl))).map (fun k => sliceIndex sl (ndindex (sliceShape sl) k))
+
+/-- the source multi-indices `reduce_t::operator()(d…)` reads, in fold order (`none` = UB before any read) -/
+def reduceReads (s : Shape) (axis : AxisArg) (keep : Bool) (d : Idx) : Option (List Idx) :=
+  match axis with
+  | none => some ((List.range (prod s)).map (ndindex s))
+  | some _ => (reductionSlices d s axis keep).map slicedReads
+
+/-- the source multi-indices `accumulate_t::operator()(d…)` reads, in fold order -/
+def accumulateReads (s : Shape) (axis : Int) (d : Idx) : Option (List Idx) :=
+  (accumulateSlices axis d 0 s).map slicedReads
+
 /-- `index::mean_divisor(shape, normalised axis)`: product of the reduced extents (`none`: `at` out of range) -/
 def meanDivisor (shape : Shape) : Option (List Nat) → Option Nat
   | none => some (prod shape)
   | some l => l.foldl (fun acc k => match acc, shape[k]? with
       | some d, some e => some (d * e)
       | _, _ => none) (some 1)
+
+/-! ### the named routines as the C++ composes them -/
+
+/-- `view::maximum_t`: `t > u ? t : u` -/
+def maximum {α : Type} [LT α] [DecidableRel (α := α) (· < ·)] (t u : α) : α := if u < t then t else u
+/-- `view::minimum_t`: `t < u ? t : u` -/
+def minimum {α : Type} [LT α] [DecidableRel (α := α) (· < ·)] (t u : α) : α := if t < u then t else u
+
+/-- `view::sum(a, axis, dtype, initial, keepdims)` = `reduce(add_t{}, …)` -/
+def sum {α : Type} [Add α] (init : Option α) (a : Arr α) (axis : AxisArg) (keep : Bool) :=
+  reduce (· + ·) init a axis keep
+/-- `view::prod` = `reduce(multiply_t{}, …)` -/
+def prodReduce {α : Type} [Mul α] (init : Option α) (a : Arr α) (axis : AxisArg) (keep : Bool) :=
+  reduce (· * ·) init a axis keep
+/-- `view::amax` = `reduce_maximum` = `reduce(maximum_t{}, …)` -/
+def amax {α : Type} [LT α] [DecidableRel (α := α) (· < ·)] (init : Option α) (a : Arr α) (axis : AxisArg) (keep : Bool) :=
+  reduce maximum init a axis keep
+/-- `view::amin` = `reduce_minimum` = `reduce(minimum_t{}, …)` -/
+def amin {α : Type} [LT α] [DecidableRel (α := α) (· < ·)] (init : Option α) (a : Arr α) (axis : AxisArg) (keep : Bool) :=
+  reduce minimum init a axis keep
+/-- `view::cumsum(a, axis)` = `accumulate(add_t{}, a, axis)` -/
+def cumsum {α : Type} [Add α] (a : Arr α) (axis : Int) := accumulate (· + ·) a axis
+/-- `view::cumprod(a, axis)` = `accumulate(multiply_t{}, a, axis)` -/
+def cumprod {α : Type} [Mul α] (a : Arr α) (axis : Int) := accumulate (· * ·) a axis
 
 /-! ## SPEC (NumPy) -/
 
